@@ -446,3 +446,66 @@ func VfGetProvidersSize() {
 }
 
 var _ = vfRegister("VfGetProvidersSize", VfGetProvidersSize)
+
+// VfGetProvidersHandler (C07/C09): GET_PROVIDERS serves every provider the
+// store returns for the key, to any requester (also one that is itself a
+// provider), with exactly the addresses the node's filter lets through.
+func VfGetProvidersHandler() {
+	R := vfParam("R")
+	vfHashReal()
+	e := vfNewEnv(2, 3, 1)
+	requester := peer.ID("requester-peer")
+	cands := []peer.ID{requester, peer.ID("provider-a"), peer.ID("provider-b"), peer.ID("provider-c")}[:R+1]
+	key := make([]byte, 34)
+	key[0], key[1] = 0x12, 0x20
+	var stored []peer.AddrInfo
+	for i, id := range cands {
+		if !vfBool("stored") {
+			continue
+		}
+		ai := peer.AddrInfo{ID: id}
+		for a := vfChoose("nAddrs", 3); a > 0; a-- {
+			ai.Addrs = append(ai.Addrs, vfAddr(30+4*i+a))
+		}
+		stored = append(stored, ai)
+	}
+	e.provs.have[string(key)] = stored
+	kept := map[string]bool{}
+	e.dht.addrFilter = func(in []ma.Multiaddr) []ma.Multiaddr {
+		var out []ma.Multiaddr
+		for _, a := range in {
+			k, seen := kept[a.String()]
+			if !seen {
+				k = vfBool("filter.keep")
+				kept[a.String()] = k
+			}
+			if k {
+				out = append(out, a)
+			}
+		}
+		return out
+	}
+	req := pb.NewMessage(pb.Message_GET_PROVIDERS, key, 0)
+	resp, err := e.dht.handleGetProviders(context.Background(), requester, req)
+	vfAssert(err == nil && resp != nil, "getproviders/answers-valid-request")
+	if resp == nil {
+		return
+	}
+	vfAssert(len(resp.ProviderPeers) == len(stored), "getproviders/every-stored-provider-is-served-once")
+	for i, p := range resp.ProviderPeers {
+		if i >= len(stored) {
+			break
+		}
+		vfAssert(peer.ID(p.Id) == stored[i].ID, "getproviders/serves-the-stored-providers")
+		want := 0
+		for _, a := range stored[i].Addrs {
+			if kept[a.String()] {
+				want++
+			}
+		}
+		vfAssert(len(p.Addrs) == want, "getproviders/serves-exactly-the-filtered-addresses")
+	}
+	vfReach("getprovidershandler/end")
+}
+
+var _ = vfRegister("VfGetProvidersHandler", VfGetProvidersHandler)
